@@ -129,7 +129,7 @@ def run_shard(check, tier, seed, shard, nshards, budget_s, with_coverage):
             except StopIteration:
                 res['exhausted_generator'] = True
                 break
-            signal.alarm(CASE_WATCHDOG_S)
+            signal.alarm(int(case.get('watchdog_s', CASE_WATCHDOG_S)) if isinstance(case, dict) else CASE_WATCHDOG_S)
             try:
                 out = check.evaluate(case)
             except _CaseTimeout:
@@ -374,6 +374,33 @@ def main(argv=None):
 
     if tier == 'quick':
         res = run_shard(check, tier, seed, 0, 1, budget, with_coverage=True)
+        if not res['violations'] and not res['inconclusive'] and not os.environ.get('VERIF_NO_OPTIMIZED_RUN'):
+            # the same workload for a few seconds under `python -O` (asserts stripped, __debug__ False): code whose behaviour
+            # rests on an assert statement with a side effect only shows there
+            import tempfile
+            fd, tmp = tempfile.mkstemp(prefix='opt-', suffix='.json', dir=common.WORK if os.path.isdir(common.WORK) else None)
+            os.close(fd)
+            try:
+                cmd = [sys.executable, '-O', '-m', 'rxverif.run', pid, '--tier', tier, '--shard', '0/1', '--out', tmp,
+                       '--budget', str(max(4.0, min(8.0, budget / 8)))]
+                r = subprocess.run(cmd, cwd=common.VERIF, capture_output=True, text=True, timeout=budget + 120,
+                                   env=dict(os.environ, PYTHONHASHSEED='0', VERIF_NO_COVERAGE='1'))
+                if r.returncode == 0 and os.path.getsize(tmp) > 0:
+                    child = load_result(tmp)
+                    res['observed']['evaluations_under_python_-O'] += child['evaluations']
+                    for v in child['violations']:
+                        for f in v['failures']:
+                            f['detail']['interpreter'] = 'python -O (asserts stripped)'
+                        res['violations'].append(v)
+                    if child['inconclusive']:
+                        res['observed']['python_-O_run_inconclusive'] += 1
+            except Exception:       # noqa: BLE001 - the optimized run is an addition: its own failure is not a verdict
+                res['observed']['python_-O_run_failed_to_start'] += 1
+            finally:
+                try:
+                    os.unlink(tmp)
+                except OSError:
+                    pass
     else:
         n = args.shards or NSHARDS
         wdir = os.path.join(common.WORK, '%s-%d-%d' % (pid, seed, os.getpid()))
@@ -381,8 +408,8 @@ def main(argv=None):
         procs = []
         for i in range(n):
             out = os.path.join(wdir, 'shard%d.json' % i)
-            cmd = [sys.executable, '-m', 'rxverif.run', pid, '--tier', tier,
-                   '--shard', '%d/%d' % (i, n), '--out', out, '--budget', str(budget)]
+            cmd = [sys.executable] + (['-O'] if i == n - 1 else []) + ['-m', 'rxverif.run', pid, '--tier', tier,
+                   '--shard', '%d/%d' % (i, n), '--out', out, '--budget', str(budget)]      # (the last shard runs under python -O)
             log = open(os.path.join(wdir, 'shard%d.log' % i), 'w')
             procs.append((subprocess.Popen(cmd, cwd=common.VERIF, stdout=log, stderr=subprocess.STDOUT,
                                            env=dict(os.environ, PYTHONHASHSEED='0')), out, log))
